@@ -24,11 +24,11 @@ CHECKS = {
             "Not all pairs of all long frames (stated); CRC detection guarantees are checked, not assumed.",
             "exhaustive enumeration of error-pattern classes on real frames"),
     "C05": ("E-frame", "5 (C05)",
-            "All byte strings over a 6-symbol alphabet (containing a complete minimal frame) up to length 10/11, all token sequences up to depth 4/6, long buffers; scanner and iterator compared with a ten-line reference scanner plus an independent dead-byte check.",
+            "All byte strings over a 7-symbol alphabet (containing a complete minimal frame and 0xD2) up to length 9/10, all sequences of up to 4/5 of 20 tokens, long buffers (beyond 64 KiB), and 300 000 / 3 000 000 complete bad candidates in front of a frame scanned in a child process; scanner and iterator compared with a ten-line reference scanner plus an independent dead-byte check.",
             "Alphabet and token set as listed.",
             "exhaustive enumeration of byte strings / token streams vs. reference scanner"),
     "C06": ("E-frame BFS", "5 (C06)",
-            "For each stream, explicit-state BFS over all chunkings (state = consumed, fed, delivered digest); each transition runs the real scanner under the caller protocol; terminal states must equal the one-shot scan.",
+            "For each stream, explicit-state BFS over all chunkings (state = consumed, fed, delivered digest incl. the reported message number); each transition runs the real scanner under the caller protocol; terminal states must equal the one-shot scan.",
             "Streams limited to the C05 sets and testdata pairs; maximum-length frames with restricted chunk sizes.",
             "explicit-state BFS over chunk arrival schedules of the real scanner"),
     "C07": ("E-bits", "5 (C07)",
@@ -44,15 +44,15 @@ CHECKS = {
             "Deviation bound and alphabets as for C01 part B.",
             "deviation-bounded exhaustive exploration of encoder inputs (value trees), two build profiles"),
     "C10": ("typed MSM enumerator", "5 (C10)",
-            "All admissible (S,G,C) triples in a 3x3 (quick) / 4x4 (thorough) scope for all 49 MSM types, boundary shapes up to 64 cells, all permutations of short lists, every invalid class; masks compared bit for bit with a harness-written frame.",
+            "All admissible (S,G,C) triples in a 3x3 (quick; 4x4 for 1074 and the MSM7 types) / 4x4 (thorough) scope for all 49 MSM types, the empty triple, boundary shapes up to 64 cells and up to 19 signals, all permutations of short lists, every invalid class (also on grids at the 64-cell limit); masks compared bit for bit with a harness-written frame, rows compared after encode/decode.",
             "Small-scope hypothesis for the general case; signal positions from the standard's tables.",
             "small-scope exhaustive enumeration of MSM inputs and caller orders"),
     "C11": ("E-field", "5 (C11)",
-            "For every scaled field every cell of adjacent grid values (all cells up to 20/24 bits, range ends / zero / lattice above) with 11 inputs around the cell ends and the midpoint; thorough: every f32 input in range for f32 fields.",
+            "For every scaled field every cell of adjacent grid values (all cells up to 20/24 bits, range ends / zero / lattice above) with 29 inputs around the cell ends and the midpoint; thorough: every f32 input in range for f32 fields; plus a pinned reference grid (what 16 probe patterns of each field denote, harness/mc-main/df_reference.json) that the decoder must agree with.",
             "A continuum is explored through its critical points; exhaustive only for the f32 sweeps.",
             "exhaustive enumeration of quantisation cells and critical inputs (all f32 inputs in thorough)"),
     "C12": ("E-builder", "5 (C12)",
-            "Explicit-state BFS over builder states reachable by build calls drawn from a ~770-message pool until the state set closes; in every state every target compared with a fresh builder.",
+            "Explicit-state BFS over builder states reachable by build calls drawn from a ~790-message pool until the state set closes; in every state every target compared with a fresh builder; all A-B-A histories over the pool; a length ladder of several hundred previous-frame lengths x ten short targets.",
             "Pool alphabet; state observation through hook H3 for deduplication only.",
             "explicit-state BFS over MessageBuilder histories until closure"),
     "C13": ("E-frame", "5 (C13)",
@@ -60,11 +60,11 @@ CHECKS = {
             "Suffix set as listed.",
             "exhaustive enumeration of frames x suffixes"),
     "C14": ("E-frame", "5 (C14)",
-            "All 4096 message numbers x payload shapes; supported set observed from behaviour compared with Cargo.toml features.",
+            "All 4096 message numbers x payload shapes; supported set observed from behaviour compared with Cargo.toml features; the deviation-bounded decode exploration of C02 with the classification oracle (a panic counts as 'neither the variant nor Corrupt'); hostile list frames.",
             "Payload shapes as listed.",
             "exhaustive enumeration of all 4096 message numbers"),
     "C15": ("list engine", "5 (C15)",
-            "Every value of every count field of the 40 list/string-bearing messages x three element fills; capacity, wire count, round trip, over-capacity and truncation oracles.",
+            "Every value of every count field of the 40 list/string-bearing messages x three element fills; capacity, wire count, round trip, over-capacity and truncation oracles (truncated frames also inside a longer buffer); the two 1029 counters on the wire for 2 794 texts.",
             "Capacities are those documented in the current tree.",
             "exhaustive enumeration of count-field values and truncations on harness-written frames"),
     "C16": ("bias-list enumerator", "5 (C16)",
@@ -72,15 +72,15 @@ CHECKS = {
             "Small-scope hypothesis.",
             "small-scope exhaustive enumeration of bias lists and hostile frames"),
     "C17": ("text enumerator", "5 (C17)",
-            "All strings over an 8-character alphabet (covering every UTF-8 length and Latin-1 class) up to length 5/6 and around the capacities; message round trips; every 2-byte text sequence in 1029 frames.",
+            "Every Unicode scalar value alone and between two ASCII characters; all strings over a 10-character alphabet (covering every UTF-8 length, Latin-1 class and truncating-cast trap) up to length 5/6 and around the capacities; message round trips; 1029 texts around 127 characters / 255 bytes; every 2-byte text sequence and malformed UTF-8 classes in 1029 frames under several claims of the character counter.",
             "Alphabet as listed.",
             "exhaustive enumeration of strings over a small alphabet vs. reference mapping"),
     "C18": ("signal-table enumerator", "5 (C18)",
-            "is_valid over the complete (band, char) domain; forward and reverse maps through the wire; cmp on all pairs and triples.",
+            "is_valid over the complete (band, char) domain; forward and reverse maps through the wire; cmp, partial_cmp and == on all pairs and triples of the recognised descriptors plus a grid of unrecognised ones.",
             "Reference tables typed in from the standard.",
             "exhaustive enumeration of the complete descriptor domain"),
     "C19": ("cargo driver", "5 (C19)",
-            "All single-feature selections, the empty one and all_msgs, without std (thorough: also with serde): cargo check; decode behaviour of single-feature builds compared with the full build.",
+            "All single-feature selections, the empty one and all_msgs: each linked without std as a #![no_std] staticlib; a driver built with std + serde against every single-feature selection decodes 4 x 4096 frames (one long and three short per message number), testdata and pattern frames and is compared with the full build; thorough: additionally cargo check of all 220 configurations with serde off and on.",
             "Host target only; no_std decided by #![no_std] builds.",
             "exhaustive enumeration of the feature-configuration space"),
     "C20": ("E-value", "5 (C20)",
